@@ -95,12 +95,20 @@ def run_bounded(prop_id, tier, seed, only_known=False):
         if only_known:
             env['VX_TEST_FILTER'] = ' '.join(known_tests)
         try:
-            pr = subprocess.run([os.path.join(ROOT, 'tools', 'run_replay.sh'), os.path.join(ROOT, b['test']), REPO],
-                                capture_output=True, text=True, timeout=3000, env=env)
-            failed_tests = re.findall(r'^test (\S+) \.\.\. FAILED', pr.stdout, flags=re.M)
-            if not failed_tests:
-                failed_tests = [m for m in re.findall(r"thread '([^']+)' \(\d+\) panicked", pr.stdout)]
-            failed_tests = sorted(set(t.split('::')[-1] for t in failed_tests))
+            def one_run():
+                pr_ = subprocess.run([os.path.join(ROOT, 'tools', 'run_replay.sh'), os.path.join(ROOT, b['test']), REPO],
+                                     capture_output=True, text=True, timeout=3000, env=env)
+                ft = re.findall(r'^test (\S+) \.\.\. FAILED', pr_.stdout, flags=re.M)
+                if not ft:
+                    ft = [m for m in re.findall(r"thread '([^']+)' \(\d+\) panicked", pr_.stdout)]
+                return pr_, sorted(set(t.split('::')[-1] for t in ft))
+            pr, failed_tests = one_run()
+            first_attempt = None
+            if pr.returncode != 0 and 'test result: FAILED' in pr.stdout and [t for t in failed_tests if t not in all_known_tests]:
+                # these suites drive real threads, tasks and timers: a failure counts only if it is there again when the suite is run a
+                # second time (same seed); what the first attempt said is kept in the evidence
+                first_attempt = {'failed_tests': failed_tests, 'tail': pr.stdout[-600:]}
+                pr, failed_tests = one_run()
             failed = pr.returncode != 0 and 'test result: FAILED' in pr.stdout
             broken = pr.returncode != 0 and not failed
             msgs = {}
@@ -117,7 +125,7 @@ def run_bounded(prop_id, tier, seed, only_known=False):
                         'known_failed': [t for t in failed_tests if t in known_tests], 'new_failed': new_failed,
                         'message': ' | '.join(msgs.get(t, t) for t in new_failed)[:900],
                         'known_message': ' | '.join(msgs.get(t, t) for t in failed_tests if t in known_tests)[:600],
-                        'output': pr.stdout[-3000:], 'only_known': only_known})
+                        'output': pr.stdout[-3000:], 'only_known': only_known, 'first_attempt': first_attempt})
         except Exception as e:  # noqa
             out.append({'suite': name, 'bound': b['bound'], 'failed': False, 'broken': True, 'known_failed': [], 'new_failed': [],
                         'message': str(e), 'known_message': '', 'output': '', 'only_known': only_known})
@@ -324,7 +332,9 @@ def check(prop_id, tier, seed):
         'bounded_checks': [{'obligation': n, 'bound': o.get('bound'), 'status': o['status']} for n, o in sorted(bounded.items())] +
                           [{'suite': b['suite'], 'bound': b['bound'], 'only_known_finding_tests': b['only_known'],
                             'status': 'failed' if b['failed'] else ('broken' if b['broken'] else 'held'),
-                            'known_findings_reproduced': b['known_failed'], 'message': b['message']} for b in bounded_runs],
+                            'known_findings_reproduced': b['known_failed'], 'message': b['message'],
+                            'first_attempt_failed_but_rerun_passed': bool(b.get('first_attempt')) and not b['failed'],
+                            'first_attempt': b.get('first_attempt')} for b in bounded_runs],
         'known_findings_reported': [{'obligation': n, 'what': k['what']} for n, _, k in known_hits],
         'vacuity': {'canaries_failed_as_required': canaries, 'expected_obligation_globs_unmatched': missing},
         'assumption_scan': [f'{u} line {ln}: {kind}: {txt}' for (u, ln, kind, txt) in assumptions_scan][:400],
